@@ -393,15 +393,19 @@ impl<'input> Parser<'input> {
         for res in &mut self.lexer {
             match res {
                 Err(err) => {
-                    if err.is_limit() {
-                        self.accept_errors = false;
-                    }
                     // Queue the error data to be added to the CST later.
                     let data = err.data();
                     if !data.is_empty() {
                         self.pending.push(PendingToken::Error(data.to_owned()));
                     }
-                    self.errors.push(err);
+                    // Same rule as `push_err`: nothing is reported after a limit error.
+                    let is_limit = err.is_limit();
+                    if self.accept_errors {
+                        self.errors.push(err);
+                    }
+                    if is_limit {
+                        self.accept_errors = false;
+                    }
                 }
                 Ok(token) => {
                     return Some(token);
